@@ -254,6 +254,13 @@ class _ReusablePoolExecutor(ProcessPoolExecutor):
             ):
                 time.sleep(1e-3)
 
+            if self._flags.broken:
+                # A worker died while the pool was being resized: the executor
+                # manager thread kills all the workers and closes the queues,
+                # there is nothing left to adjust. The next call to
+                # get_reusable_executor creates a new executor.
+                return
+
             self._adjust_process_count()
             # Wake up the executor manager thread so that it also waits on the
             # sentinels of the newly spawned workers.
